@@ -43,6 +43,8 @@ def dec(x, provider=None):
         if src == "dateutil":
             return naive.replace(tzinfo=dateutil.tz.gettz(x["tz"]), fold=x.get("fold", 0))
         return naive.replace(tzinfo=zoneinfo.ZoneInfo(x["tz"]), fold=x.get("fold", 0))
+    if k == "fixed":      # a tzinfo without any zone id: datetime.timezone fixed offset (minutes)
+        return datetime(*x["v"], tzinfo=timezone(timedelta(minutes=x["off"])))
     if k == "td":
         return timedelta(days=x["d"], seconds=x["s"])
     raise ValueError(k)
